@@ -965,6 +965,8 @@ class Branch(Factory, Container, Collection):
                         else:
                             raise JsonFormatException(x, f"Branch.data {i} type")
                         values.append(factory.fromJsonFragment(x["data"], None))
+                    else:
+                        raise JsonFormatException(x, f"Branch.data {i}")
 
             else:
                 raise JsonFormatException(json, "Branch.data")
